@@ -179,6 +179,15 @@ def _nested_dict_set(d, path, key, value):
     current[key] = value
 
 
+def _nested_dict_merge(target, new):
+    """Merge `new` into `target`: sub-dicts are merged, other entries replaced."""
+    for key, value in new.items():
+        if isinstance(value, dict) and isinstance(target.get(key), dict):
+            _nested_dict_merge(target[key], value)
+        else:
+            target[key] = value
+
+
 def _nested_dict_get(d, path):
     """Get a nested dictionary using the given path."""
     current = d
@@ -312,8 +321,11 @@ class State:
 
                 # Merge vectorized scan states into collected state
                 # scan_states is already vectorized by scan - just merge it
-                for name, vectorized_values in scan_states.items():
-                    self.collected_state[name] = vectorized_values
+                # Place the stacked states under the enclosing namespaces
+                _nested_dict_merge(
+                    _nested_dict_get(self.collected_state, tuple(self.namespace_stack)),
+                    scan_states,
+                )
 
                 outvals = jtu.tree_leaves(
                     (flat_carry_out, scanned_out),
